@@ -464,6 +464,7 @@ pub fn run(p: &Params) -> Run {
         }
         run.notes.push("exhaustive small scope: all contents of <= 5 symbols over {a, LF, CR, e-acute} x all cut sets x caps 1..3".to_owned());
     }
+    run.notes.push("eager schedules: the writer also appends between two polls of the reader (driver kind followd compares delivered lines only); bursts of 64-300 KiB of complete lines plus a tail completed while the consumer is busy; executor level: the real FollowFileExecutor with and without --head, SELECT and aggregate, stdout captured (oracle only)".to_owned());
     run.notes.push("the real reader's reads are never short (regular file): `poll k` with k+1 < cap is covered by the theorems only".to_owned());
     run
 }
